@@ -328,6 +328,16 @@ type ShapeEval struct {
 	depth    int
 	writes   []*types.Var // TS: order of f.WriteString(b.Field)
 	calls    []string     // builder methods evaluated, in order
+	counters int          // counted loops being evaluated (for the canonical counter name)
+}
+
+// counterName: the canonical name of the counter of a counted loop — `$i` for an outermost one, `$i1`, `$i2` … inside
+// another counted loop — whatever the source calls it: provenance strings must not change under a renaming.
+func (se *ShapeEval) counterName() string {
+	if se.counters == 0 {
+		return "$i"
+	}
+	return fmt.Sprintf("$i%d", se.counters)
 }
 
 func newShapeEval(c *Ctx, config map[string]bool) *ShapeEval {
@@ -827,6 +837,7 @@ func (se *ShapeEval) loop(fr *shapeFrame, s ast.Stmt) {
 	info := fr.info
 	var body *ast.BlockStmt
 	lp := &SLoop{Stmt: s, Fn: fr.fn.Name, Lo: -1}
+	counted := false
 	switch l := s.(type) {
 	case *ast.RangeStmt:
 		body = l.Body
@@ -837,7 +848,8 @@ func (se *ShapeEval) loop(fr *shapeFrame, s ast.Stmt) {
 				fr.pc.subst = map[types.Object]string{}
 			}
 			lp.Lo = 1
-			lp.Var = "$" + ko.Name()
+			lp.Var = se.counterName()
+			counted = true
 			lp.Over = "len(" + fr.pc.path(l.X) + ")"
 			if vo := identObj(info, l.Value); vo != nil {
 				fr.pc.subst[vo] = fr.pc.path(l.X) + "[" + lp.Var + "]"
@@ -872,8 +884,13 @@ func (se *ShapeEval) loop(fr *shapeFrame, s ast.Stmt) {
 			return
 		}
 		lp.Lo = lo
-		lp.Var = "$" + identObj(info, init.Lhs[0]).Name()
+		lp.Var = se.counterName()
+		counted = true
 		lp.Over = fr.pc.path(bound)
+		if fr.pc.subst == nil {
+			fr.pc.subst = map[types.Object]string{}
+		}
+		fr.pc.subst[identObj(info, init.Lhs[0])] = lp.Var
 	}
 	// builder fields first assigned inside the loop start from their zero value
 	ast.Inspect(body, func(n ast.Node) bool {
@@ -905,7 +922,13 @@ func (se *ShapeEval) loop(fr *shapeFrame, s ast.Stmt) {
 		se.fields[k] = m
 	}
 	fr.inLoop++
+	if counted {
+		se.counters++
+	}
 	se.stmts(fr, body.List)
+	if counted {
+		se.counters--
+	}
 	fr.inLoop--
 	if fr.hasRet {
 		se.errf(s.Pos(), "return inside a loop of a fragment builder")
